@@ -135,6 +135,24 @@ func findDispatches(c *Ctx, named *types.Named) []*progDispatch {
 	return out
 }
 
+// elemTypeOf: the element type of an array / slice / map (through pointers), underlying.
+func elemTypeOf(t types.Type) types.Type {
+	for {
+		switch x := t.Underlying().(type) {
+		case *types.Pointer:
+			t = x.Elem()
+			continue
+		case *types.Array:
+			return x.Elem().Underlying()
+		case *types.Slice:
+			return x.Elem().Underlying()
+		case *types.Map:
+			return x.Elem().Underlying()
+		}
+		return t.Underlying()
+	}
+}
+
 // fnOfValue: the function a function-typed value denotes (method expression, thunk, closure).
 func fnOfValue(v ssa.Value) *ssa.Function {
 	switch x := v.(type) {
@@ -227,6 +245,53 @@ func findTableDispatches(c *Ctx, named *types.Named) []*progDispatch {
 		return out
 	}
 	var out []*progDispatch
+	// (b) a table of structs that carry the functions (progressionWalks[order].visit): the element is
+	// looked up in one place and its function fields are called elsewhere
+	for _, fn := range c.scopeFuncs() {
+		for _, b := range fn.Blocks {
+			for _, ins := range b.Instrs {
+				var table, index ssa.Value
+				switch x := ins.(type) {
+				case *ssa.IndexAddr:
+					table, index = x.X, x.Index
+				case *ssa.Index:
+					table, index = x.X, x.Index
+				case *ssa.Lookup:
+					table, index = x.X, x.Index
+				default:
+					continue
+				}
+				if !isProg(index) {
+					continue
+				}
+				if u, ok := table.(*ssa.UnOp); ok && u.Op == token.MUL {
+					table = u.X
+				}
+				if sl, ok := table.(*ssa.Slice); ok {
+					table = sl.X
+				}
+				// element type must be a struct with function-typed fields
+				et := elemTypeOf(table.Type())
+				st, ok := et.(*types.Struct)
+				if !ok {
+					continue
+				}
+				d := &progDispatch{fn: fn, cases: map[int64][]*ssa.Function{}, tagExpr: addrExpr(index) + " (table of walkers)", hasDef: true}
+				for f := 0; f < st.NumFields(); f++ {
+					if _, isFn := st.Field(f).Type().Underlying().(*types.Signature); !isFn {
+						continue
+					}
+					ents, _ := tableEntries(table, f, fn)
+					for k, fv := range ents {
+						d.cases[k] = append(d.cases[k], fv)
+					}
+				}
+				if len(d.cases) >= 2 {
+					out = append(out, d)
+				}
+			}
+		}
+	}
 	for _, fn := range c.scopeFuncs() {
 		for _, b := range fn.Blocks {
 			for _, ins := range b.Instrs {
@@ -428,6 +493,16 @@ func loopNests(fn *ssa.Function, depth int, visiting map[*ssa.Function]bool) []l
 				continue
 			}
 			sc := call.Common().StaticCallee()
+			if sc == nil && !call.Common().IsInvoke() {
+				// yield(packetCoord{layer: l, res: r, comp: c, precinct: p}): the per-packet step of an
+				// iterator-style walker is the call of its yield parameter with the four dimensions
+				if _, isParam := call.Common().Value.(*ssa.Parameter); isParam {
+					if dv := structLiteralDims(call.Common().Args); dv != nil {
+						out = append(out, absorbNest(fn, loops, b, ins, nil, dv, depth))
+					}
+				}
+				continue
+			}
 			if sc == nil || !load.InScope(sc) || len(call.Common().Args) != len(sc.Params) {
 				continue
 			}
@@ -457,51 +532,142 @@ func loopNests(fn *ssa.Function, depth int, visiting map[*ssa.Function]bool) []l
 						}
 					}
 				}
-				var encl []*natLoop
-				for _, l := range loops {
-					if l.Blocks[b] {
-						encl = append(encl, l)
-					}
-				}
-				sort.Slice(encl, func(i, j int) bool { return len(encl[i].Blocks) > len(encl[j].Blocks) })
-				used := map[string]bool{}
-				var labels []string
-				for _, l := range encl {
-					label := "?"
-					for _, d := range []string{"L", "R", "C", "P"} {
-						if v, open := vals[d]; open && v != nil && !used[d] && directInduction(v, l) {
-							label = d
-							break
-						}
-					}
-					if label != "?" {
-						used[label] = true
-					}
-					labels = append(labels, label)
-				}
-				un := map[string]dimRef{}
+				n := absorbNest(fn, loops, b, in.site, in.labels, vals, depth)
 				for d := range in.unresolved {
-					if used[d] {
+					if _, labelled := n.unresolved[d]; !labelled {
 						continue
 					}
-					un[d] = dimRef{-1, -1}
-					if v, ok := vals[d]; ok && v != nil {
-						if ref, ok := dimSource(fn, v); ok {
-							un[d] = ref
-						}
-					} else if ref, ok := passOn[d]; ok {
-						un[d] = ref
+					if ref, ok := passOn[d]; ok && n.unresolved[d].param < 0 {
+						n.unresolved[d] = ref
 					}
 				}
-				site := in.site
-				if depth > 0 || site == nil {
-					site = ins
+				// dimensions the inner nest still needs but that this call site gives no value for
+				for d := range in.unresolved {
+					if _, has := vals[d]; !has {
+						if _, present := n.unresolved[d]; !present && !contains(n.labels, d) {
+							n.unresolved[d] = dimRef{-1, -1}
+							if ref, ok := passOn[d]; ok {
+								n.unresolved[d] = ref
+							}
+						}
+					}
 				}
-				out = append(out, loopNest{labels: append(labels, in.labels...), unresolved: un, site: in.site})
+				if n.site == nil {
+					n.site = ins
+				}
+				out = append(out, n)
 			}
 		}
 	}
 	return out
+}
+
+func contains(xs []string, x string) bool {
+	for _, y := range xs {
+		if y == x {
+			return true
+		}
+	}
+	return false
+}
+
+// absorbNest labels the loops of fn that enclose block b with the dimensions whose values (vals) are
+// their induction variables, prepends them to the inner labels, and records where the remaining
+// dimensions enter fn.
+func absorbNest(fn *ssa.Function, loops []*natLoop, b *ssa.BasicBlock, site ssa.Instruction, innerLabels []string, vals map[string]ssa.Value, depth int) loopNest {
+	var encl []*natLoop
+	for _, l := range loops {
+		if l.Blocks[b] {
+			encl = append(encl, l)
+		}
+	}
+	sort.Slice(encl, func(i, j int) bool { return len(encl[i].Blocks) > len(encl[j].Blocks) })
+	used := map[string]bool{}
+	var labels []string
+	for _, l := range encl {
+		label := "?"
+		for _, d := range []string{"L", "R", "C", "P"} {
+			if v, open := vals[d]; open && v != nil && !used[d] && directInduction(v, l) {
+				label = d
+				break
+			}
+		}
+		if label != "?" {
+			used[label] = true
+		}
+		labels = append(labels, label)
+	}
+	un := map[string]dimRef{}
+	for d, v := range vals {
+		if used[d] {
+			continue
+		}
+		un[d] = dimRef{-1, -1}
+		if v != nil {
+			if ref, ok := dimSource(fn, v); ok {
+				un[d] = ref
+			}
+		}
+	}
+	return loopNest{labels: append(labels, innerLabels...), unresolved: un, site: site}
+}
+
+// structLiteralDims: the call passes a struct built in place whose integer fields are named after
+// the four progression dimensions; returns the value stored into each.
+func structLiteralDims(args []ssa.Value) map[string]ssa.Value {
+	for _, a := range args {
+		var al *ssa.Alloc
+		switch x := a.(type) {
+		case *ssa.UnOp:
+			if x.Op == token.MUL {
+				al, _ = x.X.(*ssa.Alloc)
+			}
+		case *ssa.Alloc:
+			al = x
+		}
+		if al == nil || al.Referrers() == nil {
+			continue
+		}
+		tn := namedOfRecv(al.Type())
+		if tn == nil {
+			continue
+		}
+		st, ok := tn.Underlying().(*types.Struct)
+		if !ok {
+			continue
+		}
+		out := map[string]ssa.Value{}
+		for _, r := range *al.Referrers() {
+			fa, ok := r.(*ssa.FieldAddr)
+			if !ok || fa.Referrers() == nil || !isIntBasic(st.Field(fa.Field).Type()) {
+				continue
+			}
+			n := strings.ToLower(st.Field(fa.Field).Name())
+			d := ""
+			switch {
+			case strings.HasPrefix(n, "layer"):
+				d = "L"
+			case strings.HasPrefix(n, "res"):
+				d = "R"
+			case strings.HasPrefix(n, "comp"):
+				d = "C"
+			case strings.HasPrefix(n, "precinct"):
+				d = "P"
+			}
+			if d == "" {
+				continue
+			}
+			for _, u := range *fa.Referrers() {
+				if s2, ok := u.(*ssa.Store); ok && s2.Addr == ssa.Value(fa) {
+					out[d] = s2.Val
+				}
+			}
+		}
+		if len(out) == 4 {
+			return out
+		}
+	}
+	return nil
 }
 
 // loopSignature: outer-to-inner labels (L, R, C, P) of the loops around the per-packet call reached
@@ -609,6 +775,7 @@ func runProgression(c *Ctx, prop string) Info {
 	c.C.Floor("progression-constants", len(consts), 5)
 	ds := findDispatches(c, named)
 	var encD, decD *progDispatch
+	var shared []*progDispatch
 	nDispatch := 0
 	for _, d := range ds {
 		ctl := load.IsControl(load.FuncPkgPath(d.fn))
@@ -649,6 +816,33 @@ func runProgression(c *Ctx, prop string) Info {
 		}
 		if recv == "PacketDecoder" && hasSignatureCallees(d) {
 			decD = d
+		}
+		if recv != "PacketEncoder" && recv != "PacketDecoder" && hasSignatureCallees(d) {
+			shared = append(shared, d)
+		}
+	}
+	// one dispatch used by both sides (a shared progression walker): it is the encoder's and the
+	// decoder's enumeration at once when methods of both types reach it
+	if encD == nil || decD == nil {
+		reaches := func(typeName string, target *ssa.Function) bool {
+			var roots []*ssa.Function
+			for _, fn := range c.scopeFuncs() {
+				if fn.Signature.Recv() == nil {
+					continue
+				}
+				if n := namedOfRecv(fn.Signature.Recv().Type()); n != nil && n.Obj().Name() == typeName && n.Obj().Pkg() != nil && n.Obj().Pkg().Path() == load.ModPath+"/jpeg2000/t2" {
+					roots = append(roots, fn)
+				}
+			}
+			return c.P.Reachable(roots)[target]
+		}
+		for _, d := range shared {
+			if encD == nil && reaches("PacketEncoder", d.fn) {
+				encD = d
+			}
+			if decD == nil && reaches("PacketDecoder", d.fn) {
+				decD = d
+			}
 		}
 	}
 	c.C.Floor("EXHAUST-PROG-dispatch", nDispatch, 2)
@@ -768,6 +962,13 @@ func (c *Ctx) tileIndexRule() int {
 		for _, s := range outputSinks(fn) {
 			ws, _ := sinkWritesOf(fn, s)
 			for i, w := range ws {
+				if w.what == "segment" && w.marker == mSOT {
+					// SOT handed to a generic segment emitter with a payload that is not built in
+					// place (a builder object): which value ends up in Isot is not followed
+					n++
+					c.add("FLOWS-TILEIDX", fn, "Isot of SOT (payload built elsewhere)", report.OutOfScope, c.P.Pos(w.ins.Pos()), "the SOT payload is assembled by a builder object and handed to a generic segment emitter: the Isot field is not followed")
+					continue
+				}
 				if w.what != "marker" || w.marker != mSOT || i+2 >= len(ws) {
 					continue
 				}
